@@ -1311,3 +1311,10 @@ brk("B25g", "draft7.json: multipleOf may be 0",
         },''', '''        "multipleOf": {
             "type": "number"
         },''')], {"C09": "R9.1|", "C03": "R3.1|"})
+
+
+# whole-tree transformation: every local and every positionally-passed parameter renamed, plain top-level functions
+# reordered, all eight modules re-emitted through ast.unparse (every line number and the whole layout change).
+# The repository's suite passes on the transformed tree (checked when the transformation was written).
+VARIANTS.append({"id": "P00", "kind": "preserving", "desc": "rename all locals/params + reorder defs + reformat (8 modules)", "edits": [],
+                 "transform": "rename_reorder", "pids": None})
